@@ -4,6 +4,8 @@ import CCVerif.Lemmas.EvalExamples6
 import CCVerif.Lemmas.EvalExamples7
 import CCVerif.Lemmas.EvalExamples8
 import CCVerif.Lemmas.EvalExamples7n
+import CCVerif.Lemmas.EvalFuelTop
+import CCVerif.Lemmas.EvalFuelNorm
 /-!
 # C02 — type soundness of checker + evaluator
 
@@ -680,5 +682,109 @@ theorem progress_preservation_partial7n : progress_preservation_statement Typed7
 example : Typed7n Examples7.env7n Examples7.caller2 (.ty (.coll Examples.X)) :=
   ⟨_, _, Examples7.globalsOK_7n, Examples7.caller2_cn, Examples7.caller2N_frag⟩
 example : (evaluate 20 Examples7.env7n Examples7.caller2).1 = .ok (.s [.e 1, .e 2]) := by decide
+
+/-! ## the fuel of the model (`Lemmas/EvalFuel*.lean`)
+
+The real evaluator has no fuel: its recursion is structural on the tree, every loop runs over a finite set or stops at
+`MAX_ITERATIONS`.  In the model the fuel only has to cover the DEPTH of the recursion: `fuelBound f0 n = max f0 (evDepth n)`
+(`f0` = a fuel at which the normaliser answers `n` for `e` - a closed computation per expression, `normalizeTree` is
+monotone in its fuel; `evDepth n` = nesting depth of the normalised tree, enough for the name collector and for the
+interpreter, whose `R{}` / `I{}` loops carry their own bound `MAX_ITERATIONS + 2`).  The other source of `outOfFuel` are the
+model's limits for materialising the lazy sets of the C++ (`ℬ` beyond `POW_LIMIT` members outside `∈`, `×` beyond
+`PROD_LIMIT`): no fuel removes those, they are excluded syntactically by `eagerFree` (no `ℬ`, no `×`, no `R{}`, `I{}`,
+no filter in the normalised tree). -/
+
+/-- what C02 allows when the fuel is sufficient: `Sound` without `outOfFuel` -/
+def SoundTotal (r : EvalRes) (τ : ExprTy) : Prop :=
+  match r with
+  | .ok v => ∃ t, τ = .ty t ∧ ValHasTy v t
+  | .okBool _ => τ = .logic
+  | .err eid _ => Documented eid
+  | .outOfFuel => False
+  | .stuck _ => False
+
+private theorem soundTotal_of {r : EvalRes} {τ : ExprTy} (h : Sound r τ) (hn : r ≠ .outOfFuel) : SoundTotal r τ := by
+  cases r with
+  | outOfFuel => exact absurd rfl hn
+  | ok v => exact h
+  | okBool b => exact h
+  | err e p => exact h
+  | stuck s => exact h
+
+/-- **full statement**: with the fuel `bound env e` the outcome is a value of the type, a truth value exactly for LOGIC,
+or a documented error - nothing else - and it is the outcome at every larger fuel -/
+def progress_preservation_total_statement (Typed : Env → Ast → ExprTy → Prop) (bound : Env → Ast → Nat) : Prop :=
+  ∀ (env : Env) (e : Ast) (τ : ExprTy), Typed env e τ → ∀ fuel, bound env e ≤ fuel →
+    SoundTotal (evaluate fuel env e).1 τ ∧ evaluate fuel env e = evaluate (bound env e) env e
+
+/-- **evaluate_fuel_stable**: EVERY expression, every environment: once the normaliser has answered (`f0`), the outcome of
+`Interpreter::Evaluate` (result and iteration count) is the same for all fuels from `fuelBound f0 n` on; in particular an
+`outOfFuel` there is one at every fuel (a materialisation limit of the model, not the recursion depth) -/
+theorem evaluate_fuel_stable (env : Env) (e n : Ast) (f0 : Nat) (hn : normalizeTree env.funcs f0 e = some n)
+    (fuel : Nat) (hf : fuelBound f0 n ≤ fuel) : evaluate fuel env e = evaluate (fuelBound f0 n) env e :=
+  evaluate_fuel_stable' hn fuel _ hf (Nat.le_refl _)
+
+/-- **evaluate_fuel_sufficient_partial**: if the normalised tree is `eagerFree`, the outcome from `fuelBound f0 n` on is
+not `outOfFuel` (every expression - typed or not - every environment) -/
+theorem evaluate_fuel_sufficient_partial (env : Env) (e n : Ast) (f0 : Nat) (hn : normalizeTree env.funcs f0 e = some n)
+    (he : eagerFree n = true) (fuel : Nat) (hf : fuelBound f0 n ≤ fuel) : (evaluate fuel env e).1 ≠ .outOfFuel :=
+  evaluate_fuel_sufficient' hn he fuel hf
+
+/-- the two passes after the normaliser, for EVERY tree: from the depth of the tree on the fuel does not matter, and
+the name collector never answers `outOfFuel` there -/
+theorem evalNorm_fuel_stable_all (env : Env) (nt : Ast) (fuel : Nat) (hf : evDepth nt ≤ fuel) :
+    evalNorm fuel env nt = evalNorm (evDepth nt) env nt ∧ collect env fuel nt {} ≠ .fail .outOfFuel :=
+  ⟨evalNorm_fuel_stable env nt fuel _ hf (Nat.le_refl _), collect_fuel_sufficient env fuel nt {} hf⟩
+
+private theorem total_of {Typed : Env → Ast → ExprTy → Prop} (hs : progress_preservation_statement Typed)
+    {env : Env} {e n : Ast} {τ : ExprTy} {f0 : Nat} (ht : Typed env e τ) (hn : normalizeTree env.funcs f0 e = some n)
+    (he : eagerFree n = true) (fuel : Nat) (hf : fuelBound f0 n ≤ fuel) :
+    SoundTotal (evaluate fuel env e).1 τ ∧ evaluate fuel env e = evaluate (fuelBound f0 n) env e :=
+  ⟨soundTotal_of (hs env e τ ht fuel) (evaluate_fuel_sufficient' hn he fuel hf), evaluate_fuel_stable' hn fuel _ hf (Nat.le_refl _)⟩
+
+/-- **progress_preservation_total_partial3**: stage 3 (ground set constructs, globals, `∀ ∃ D{}` over plain variables) without
+eager `ℬ` and without `×`: from the fuel `evDepth e` on (the normaliser is covered: `FragR.normalizesTree_some`), the outcome is
+a value of the type of the expression, a truth value exactly for LOGIC, or a documented error - never `outOfFuel`, never
+`stuck` - and it is the same at every such fuel. -/
+theorem progress_preservation_total_partial3 :
+    progress_preservation_total_statement (fun env e τ => Typed3 env e τ ∧ eagerFree e = true) (fun _ e => evDepth e) := by
+  intro env e τ ⟨⟨G, hG, hfr⟩, he⟩ fuel hf
+  have hn := FragR.normalizesTree_some hfr (evDepth e) (Nat.le_refl _)
+  have hb : fuelBound (evDepth e) e = evDepth e := by simp [fuelBound]
+  have := total_of progress_preservation_partial3 ⟨G, hG, hfr⟩ hn he fuel (by rw [hb]; exact hf)
+  rw [hb] at this
+  exact this
+
+/-- **progress_preservation_total_partial6**: the same for stages 5 / 6 (enumerated declarations, flat tuple patterns):
+`n` is the normal form the normaliser returns -/
+theorem progress_preservation_total_partial6 (env : Env) (e n : Ast) (τ : ExprTy) (f0 : Nat) (h : Typed6 env e τ)
+    (hn : normalizeTree env.funcs f0 e = some n) (he : eagerFree n = true) (fuel : Nat) (hf : fuelBound f0 n ≤ fuel) :
+    SoundTotal (evaluate fuel env e).1 τ ∧ evaluate fuel env e = evaluate (fuelBound f0 n) env e :=
+  total_of progress_preservation_partial6 h hn he fuel hf
+
+/-- **progress_preservation_total_partial7**: the same for expressions with calls (`Typed7`; `f0` covers the fuel the
+normaliser needs to inline the calls) -/
+theorem progress_preservation_total_partial7 (env : Env) (e n : Ast) (τ : ExprTy) (f0 : Nat) (h : Typed7 env e τ)
+    (hn : normalizeTree env.funcs f0 e = some n) (he : eagerFree n = true) (fuel : Nat) (hf : fuelBound f0 n ≤ fuel) :
+    SoundTotal (evaluate fuel env e).1 τ ∧ evaluate fuel env e = evaluate (fuelBound f0 n) env e :=
+  total_of progress_preservation_partial7 h hn he fuel hf
+
+/-! non-vacuity: `e3` = `∀x∈X1 ∃y∈X1 ((x,y)∈D1 ∨ (y,x)∈D1) & D{x∈X1 | ∃y∈X1 (x,y)∈D1} = Pr1(D1)` over `X1 = {1,2,3}` (nested
+quantifiers): the normaliser answers at fuel 7, the tree is `eagerFree`, the bound is 7, the outcome at the bound is `true` -/
+example : normalizeTree Examples.envS.funcs 7 Examples.e3 = some Examples.e3 := by rfl
+example : eagerFree Examples.e3 = true := by decide
+example : fuelBound 7 Examples.e3 = 7 := by decide
+example : (evaluate (fuelBound 7 Examples.e3) Examples.envS Examples.e3).1 = .okBool true := by decide
+example : evDepth Examples.e3 = 7 := by decide
+example : SoundTotal (evaluate 9 Examples.envS Examples.e3).1 .logic ∧
+    evaluate 9 Examples.envS Examples.e3 = evaluate (evDepth Examples.e3) Examples.envS Examples.e3 :=
+  progress_preservation_total_partial3 Examples.envS Examples.e3 .logic
+    ⟨⟨_, Examples.globalsOK_S, Examples.e3_frag⟩, by decide⟩ 9 (by decide)
+example : ∀ fuel, 7 ≤ fuel → (evaluate fuel Examples.envS Examples.e3).1 = .okBool true := by
+  intro fuel hf
+  have h := evaluate_fuel_stable Examples.envS Examples.e3 Examples.e3 7 (by rfl) fuel (by
+    have : fuelBound 7 Examples.e3 = 7 := by decide
+    omega)
+  rw [h]; decide
 
 end CCVerif.Eval
